@@ -157,6 +157,9 @@ def _session(rng, prog, per, ending, force_one_line=False):
                 # text before the first command of a line has no effect (the line is parsed on its own): dots,
                 # hearts, ?/!, foreign text, plain Hangul, stray end syllables
                 lead += ''.join(rng.choice(['.', '…', '♥', '💖', '?', '!', 'zz', '가', '엉', ' ', '잠']) for _ in range(rng.randint(1, 5))) + ' '
+                if rng.random() < 0.3:
+                    # plain words - including the front end's own - are foreign text too when commands follow on the line
+                    lead = rng.choice(['clear ', 'help ', 'exit ', 'Clear ', 'EXIT: ', 'clear the top: ', 'help me ', 'exit(0) ', 'next ', 'state ']) + lead
                 stats['lines_with_leading_noise'] = stats.get('lines_with_leading_noise', 0) + 1
             trail = ''
             if rng.random() < 0.15:
